@@ -18,8 +18,16 @@ RUN_DROP = {"RunFile", "SupprInit", "AiOpen", "AiOpened", "AiWrite", "AiClose", 
 FINDING_FIELDS = ("id", "sev", "inc", "file", "line", "col", "msg")
 
 
+def short_text(t):
+    """very long texts (a 70 kB message) are replaced by prefix + digest: an injective renaming that keeps TLC's input small"""
+    if isinstance(t, str) and len(t) > 300:
+        import hashlib
+        return t[:80] + "#sha1:" + hashlib.sha1(t.encode("utf-8", "replace")).hexdigest()
+    return t
+
+
 def finding(e):
-    return {k: e.get(k) for k in FINDING_FIELDS}
+    return {k: short_text(e.get(k)) for k in FINDING_FIELDS}
 
 
 def res_obj(e):
